@@ -157,6 +157,38 @@ def _lambda_meaning(l: ast.Lambda) -> str:
     return ast.unparse(body)
 
 
+_OPERATOR_COMPARE = {'lt': ast.Lt, 'gt': ast.Gt, 'le': ast.LtE, 'ge': ast.GtE, 'eq': ast.Eq, 'ne': ast.NotEq}
+
+
+def _entry_as_lambda(repo: Repo, v: ast.expr, imports: Dict[str, str], shadowed: Set[str]) -> ast.expr:
+    """a table entry built by a module-level factory - `_as_flag(lt)` with `def _as_flag(p): return lambda a, b: 1 if p(a, b) else 0` -
+    read as the lambda it denotes: the factory's parameters are replaced by the arguments, and a call of an operator-module
+    comparison function (by import identity) is written as the comparison."""
+    from ..pyfacts import clone
+    if isinstance(v, ast.Call) and isinstance(v.func, ast.Name) and repo.has_func(EXPR, v.func.id) and not v.keywords:
+        fac = repo.func(EXPR, v.func.id)
+        body = [b for b in fac.body if not (isinstance(b, ast.Expr) and isinstance(b.value, ast.Constant))]
+        params = [a.arg for a in fac.args.args]
+        if len(body) == 1 and isinstance(body[0], ast.Return) and isinstance(body[0].value, ast.Lambda) and len(params) == len(v.args):
+            b = dict(zip(params, v.args))
+
+            class Bind(ast.NodeTransformer):
+                def visit_Name(self, n: ast.Name) -> ast.AST:
+                    return clone(b[n.id]) if isinstance(n.ctx, ast.Load) and n.id in b else n
+            v = Bind().visit(clone(body[0].value))
+
+    class Infix(ast.NodeTransformer):
+        def visit_Call(self, n: ast.Call) -> ast.AST:
+            self.generic_visit(n)
+            if isinstance(n.func, ast.Name) and n.func.id not in shadowed and imports.get(n.func.id) in _OPERATOR_COMPARE and len(n.args) == 2 \
+                    and not n.keywords:
+                return ast.Compare(left=n.args[0], ops=[_OPERATOR_COMPARE[imports[n.func.id]]()], comparators=[n.args[1]])
+            return n
+    if isinstance(v, ast.Lambda):
+        v = ast.fix_missing_locations(Infix().visit(clone(v)))
+    return v
+
+
 REF_LAMBDAS = {
     '&&': (2, {'bool:_0 and _1'}), '||': (2, {'bool:_0 or _1'}), '#': (1, {'_0.bit_length()'}), '~': (1, {'~_0'}),
     '?:': (3, {'_1 if _0 else _2'}),
@@ -200,6 +232,7 @@ def rule_table(rep: Report, repo: Repo, used: Set[str]) -> None:
             rep.check(ok, 'C12.TABLE', 'entry **', f'{norm(v)} returns {rets}', site, expected='base ** exp (non-negative exponent)')
         elif op in REF_LAMBDAS:
             ar, meanings = REF_LAMBDAS[op]
+            v = _entry_as_lambda(repo, v, imports, shadowed)
             ok = isinstance(v, ast.Lambda) and len(v.args.args) == ar and _lambda_meaning(v) in meanings
             rep.check(ok, 'C12.TABLE', f'entry {op}', f'{norm(v)} -> {_lambda_meaning(v) if isinstance(v, ast.Lambda) else "?"}', site,
                       expected=f'arity {ar}, meaning {sorted(meanings)[0]}')
@@ -212,13 +245,53 @@ def rule_one_table(rep: Report, repo: Repo) -> None:
              'op_string_to_function[op] to the operands in order and never special-case an operator, so the stage at which '
              'a sub-expression is folded cannot change its value', 3)
     want = {
-        'get_minimized_expr': {'op_string_to_function[op](*map(int, params))'},
-        'Expr.eval_new': {'op_string_to_function[op](*(arg.value for arg in evaluated_args))'},
-        'Expr.exact_eval': {'op_string_to_function[op](*(e.exact_eval(labels) for e in args))'},
+        'get_minimized_expr': {'op_string_to_function[op](*(int(_x) for _x in params))'},
+        'Expr.eval_new': {'op_string_to_function[op](*(_x.value for _x in evaluated_args))'},
+        'Expr.exact_eval': {'op_string_to_function[op](*(_x.exact_eval(labels) for _x in args))'},
     }
+
+    def single_def(fn: ast.AST, name: str) -> Optional[ast.expr]:
+        vals = [n.value for n in ast.walk(fn) if isinstance(n, ast.Assign) and len(n.targets) == 1 and isinstance(n.targets[0], ast.Name)
+                and n.targets[0].id == name]
+        stores = [n for n in ast.walk(fn) if isinstance(n, ast.Name) and n.id == name and isinstance(n.ctx, ast.Store)]
+        return vals[0] if len(vals) == 1 and len(stores) == 1 else None
+
+    def through(fn: ast.AST, e: ast.expr) -> ast.expr:
+        for _ in range(3):
+            if isinstance(e, ast.Name):
+                d = single_def(fn, e.id)
+                if d is None:
+                    break
+                e = d
+        return e
+
+    def operand_stream(fn: ast.AST, e: ast.expr) -> Optional[str]:
+        """`(ELT for v in SEQ)`, `[ELT for v in SEQ]`, `map(f, SEQ)`, or a local bound once to one of those -> 'ELT[_x] for _x in SEQ'"""
+        e = through(fn, e)
+        if isinstance(e, (ast.GeneratorExp, ast.ListComp)) and len(e.generators) == 1 and not e.generators[0].ifs \
+                and isinstance(e.generators[0].target, ast.Name):
+            v = e.generators[0].target.id
+
+            class R(ast.NodeTransformer):
+                def visit_Name(self, node: ast.Name) -> ast.AST:
+                    return ast.Name(id='_x', ctx=node.ctx) if node.id == v else node
+            from ..pyfacts import clone
+            return f'{norm(R().visit(clone(e.elt)))} for _x in {norm(e.generators[0].iter)}'
+        if isinstance(e, ast.Call) and dotted(e.func) == 'map' and len(e.args) == 2:
+            return f'{norm(e.args[0])}(_x) for _x in {norm(e.args[1])}'
+        return None
+
     for q, forms in want.items():
         fn = repo.func(EXPR, q)
-        cs = [norm(c) for c in calls(fn) if isinstance(c.func, ast.Subscript) and norm(c.func.value) == 'op_string_to_function']
+        cs = []
+        for c in calls(fn):
+            f_ = through(fn, c.func)
+            if isinstance(f_, ast.Subscript) and norm(f_.value) == 'op_string_to_function':
+                if len(c.args) == 1 and isinstance(c.args[0], ast.Starred) and not c.keywords:
+                    st = operand_stream(fn, c.args[0].value)
+                    cs.append(f'{norm(f_)}(*({st}))' if st else norm(c))
+                else:
+                    cs.append(norm(c))
         special = [norm(n) for n in ast.walk(fn) if isinstance(n, ast.Compare) and any(
             isinstance(x, ast.Name) and x.id == 'op' for x in [n.left] + n.comparators)]
         order_ok = True
